@@ -92,7 +92,7 @@ package clause
 //@ # "@name" is written back as text only when the name is not among the arguments; a present name with a nil value
 //@ # is bound as NULL (presence is the map's comma-ok, not the value).
 //@ ghost namedFound
-//@ event maplookup map
+//@ event maplookup local:namedMap
 //@   in clause.(NamedExpr).Build
 //@   do namedFound = ite(arg1, 1, 0)
 //@ site unbound-name-written-back-only-when-absent
